@@ -173,6 +173,39 @@ func C04(c *fw.Ctx) {
 			run(fmt.Sprintf("own-name|factory"), prog2)
 		}
 	}
+	// (a2) a parameter in callee position: the function bound to the parameter is the one that runs,
+	// whatever the parameter is called (run() repeats each program with built-in names as parameter names)
+	{
+		id, num := model.Id, model.Num
+		for variant := 0; variant < 6; variant++ {
+			if !c.Mine() {
+				continue
+			}
+			var body []*model.N
+			switch variant {
+			case 0:
+				body = []*model.N{model.Return(model.CallN("f", id("v")))}
+			case 1:
+				body = []*model.N{model.Var("r", model.CallN("f", id("v"))), model.Return(model.Bin("+", id("r"), num(1)))}
+			case 2:
+				body = []*model.N{model.Return(model.CallN("f", model.CallN("f", id("v"))))}
+			case 3:
+				body = []*model.N{model.Fun("inner", nil, model.Return(model.CallN("f", id("v")))), model.Return(model.CallN("inner"))}
+			case 4:
+				body = []*model.N{model.Return(model.Arr(model.CallN("f", id("v")), id("f")))}
+			case 5:
+				body = []*model.N{model.If(model.Bin(">", id("v"), num(0)), model.Block(model.Return(model.CallN("f", model.Bin("-", id("v"), num(1))))), nil), model.Return(model.CallN("f", id("v")))}
+			}
+			prog := []*model.N{
+				model.Fun("ap", []string{"f", "v"}, body...),
+				model.Fun("neg", []string{"x"}, model.Return(model.Bin("-", num(0), model.Bin("*", id("x"), num(2))))),
+				model.Print(model.CallN("ap", id("neg"), num(5))),
+				model.Print(model.CallN("ap", id(model.BiAbs), model.Un("-", num(7)))),
+				model.Print(model.CallN("ap", id(model.BiRound), num(2.5))),
+			}
+			run("parameter-as-callee", prog)
+		}
+	}
 	// (a) return placement
 	var path []string
 	var rec func()
